@@ -3,6 +3,7 @@
 // line holds one answer per answering operation (space separated).  All numbers decimal (uint64 / int32).
 //   D n                       make the holder's arena dirty: n named labels, then reinit()            -> "D"
 //   N namehex align order     new_section(name, explicit size, flags none, align, order)  ('-' = "")   -> "N:ok:<id>" | "N:<err>"
+//   Ns bufhex align order     new_section(C string, SIZE_MAX, ...) ; Bs keyhex  section_by_name(C string, SIZE_MAX)   -> as N / B
 //   Z id bsize vsize seed     fabricate contents: buffer of bsize bytes (pattern from seed), virtual size -> (silent)
 //   B keyhex                  section_by_name(key, explicit size)                                      -> "B:<id>" | "B:-"
 //   F                         flatten()                                                                -> "F:<err>"
@@ -36,6 +37,8 @@ static const char* err_name(Error e) {
     case Error::kTooLarge: return "ETOOLARGE";
     case Error::kInvalidSection: return "ESECTION";
     case Error::kNoCodeGenerated: return "ENOCODE";
+    case Error::kInvalidRelocEntry: return "ERELOC";
+    case Error::kRelocOffsetOutOfRange: return "ERANGE";
     default: snprintf(buf, sizeof(buf), "E%u", unsigned(e)); return buf;
   }
 }
@@ -92,6 +95,7 @@ int main() {
     code.init(env);
     x86::Assembler* as = nullptr;
     bool fabricated_huge = false;
+    std::vector<uint64_t> call_targets;
 
     while (in >> op) {
       if (op == "D") {
@@ -112,6 +116,22 @@ int main() {
         if (e == Error::kOk && s) snprintf(tmp, sizeof(tmp), "N:ok:%u", s->section_id());
         else snprintf(tmp, sizeof(tmp), "N:%s", err_name(e));
         emit(tmp);
+      }
+      else if (op == "Ns") {
+        // name_size == SIZE_MAX: the name is a C string (strlen); the buffer may hold a NUL before its end
+        std::string nh; uint64_t al; long long ord; in >> nh >> al >> ord;
+        std::string name = unhex(nh);
+        Section* s = nullptr;
+        Error e = code.new_section(Out(s), name.c_str(), SIZE_MAX, SectionFlags::kNone, uint32_t(al), int32_t(ord));
+        if (e == Error::kOk && s) snprintf(tmp, sizeof(tmp), "N:ok:%u", s->section_id());
+        else snprintf(tmp, sizeof(tmp), "N:%s", err_name(e));
+        emit(tmp);
+      }
+      else if (op == "Bs") {
+        std::string kh; in >> kh;
+        std::string key = unhex(kh);
+        Section* s = code.section_by_name(key.c_str(), SIZE_MAX);
+        if (s) { snprintf(tmp, sizeof(tmp), "B:%u", s->section_id()); emit(tmp); } else emit("B:-");
       }
       else if (op == "Z") {
         uint32_t id; uint64_t bs, vs, seed; in >> id >> bs >> vs >> seed;
@@ -181,7 +201,10 @@ int main() {
         static JitRuntime rt;
         void* p = nullptr;
         Error e = rt._add(&p, &code);
-        if (e == Error::kOk && p) {
+        bool near_target = false;   // scenarios with calls promise targets no rel32 can reach from the allocated memory
+        for (uint64_t t : call_targets) { uint64_t d = t - uint64_t(uintptr_t(p)); if (d + (uint64_t(1) << 32) < (uint64_t(2) << 32)) near_target = true; }
+        if (e == Error::kOk && p && near_target) { emit("J:near"); rt._release(p); }
+        else if (e == Error::kOk && p) {
           size_t n = code.code_size();
           emit(std::string("J:ok:") + std::to_string(n) + ":" + rle(static_cast<const uint8_t*>(p), n));
           rt._release(p);
@@ -192,6 +215,7 @@ int main() {
         uint64_t addr, len_ignored; in >> addr >> len_ignored;
         if (!as) { as = new x86::Assembler(&code); }
         Error e = as->call(Imm(addr));
+        call_targets.push_back(addr);
         snprintf(tmp, sizeof(tmp), "K:%s:%zu", err_name(e), code.text_section()->buffer_size());
         emit(tmp);
       }
